@@ -18,11 +18,16 @@ for f in sorted(glob.glob(os.path.join(HERE, "seeded", "*", "meta.json"))):
             mm = re.search(r"clause=(\S+) shape=(\S+)", v[0])
             if mm:
                 shape = "%s `%s`" % (mm.group(1), mm.group(2)[:70])
-    rows.append("| %s | %s | %s | %s | %s | %s |" % (name, ", ".join(os.path.basename(x) for x in files), "yes" if m["valid"] else "no", caught, shape, need))
-table = ["| change | file | confirmed (suite passes, demo fails) | caught by | first clause / shape | what it needs to manifest (author's words, abridged) |",
-         "|---|---|---|---|---|---|"] + rows
+    hist = m.get("history", [])
+    first = "caught" if (not hist and m["caught_by"]) or (hist and hist[0].get("caught_by")) else "missed"
+    if not hist and not m["caught_by"]:
+        first = "missed"
+    rows.append("| %s | %s | %s | %s | %s | %s | %s |" % (name, ", ".join(os.path.basename(x) for x in files), "yes" if m["valid"] else "no", first, caught, shape, need))
+table = ["| change | file | confirmed (suite passes, demo fails) | first evaluation | now caught by | first clause / shape | what it needs to manifest (author's words, abridged) |",
+         "|---|---|---|---|---|---|---|"] + rows
 n = len(rows); c = sum(1 for r in rows if "**missed**" not in r)
-text = "\n".join(table) + "\n\n%d changes archived, %d caught by at least one check (quick tier).\n" % (n, c)
+f1 = sum(1 for r in rows if "| caught |" in r)
+text = "\n".join(table) + "\n\n%d changes archived, %d caught by at least one check (quick tier); %d of them were already caught at their first evaluation, the others after the harness extensions described above.\n" % (n, c, f1)
 p = os.path.join(HERE, "DESIGN.md")
 s = open(p).read()
 if "<!-- SEEDED-TABLE -->" in s:
